@@ -25,6 +25,14 @@ CLAIMED = {
             "TLC explores all interleavings, at the granularity of reference reads / tip read / compare-and-set, of 2-3 concurrent record / annotate / branch-commit operations and checks exactly-once, no ghost entries, single chain, consecutive unique numbers and walkability; one schedule per distinct terminal state is replayed with real goroutine writers gated call by call on one shared store, and TLC re-runs each recorded schedule through the specification and judges the final log.",
             "Replay is on the in-memory store (real-process runs on an on-disk repository are part of the thorough tier when built); one schedule per distinct terminal state, not every interleaving, is replayed.",
             "DESIGN.md section 4 C17"),
+    "C05": ("Signatures.tla, MC_Signatures.tla, Trace_Signatures.tla",
+            "TLC enumerates every verifier input within the bounds (principals with 1-2 shared or disjoint keys, thresholds 0..5, every Git signer, every subset of valid envelope signers, junk signatures) and proves that the coded two-pass counting, for every iteration order, respects the counting rules (only trusted signers, at most a maximum matching of principals to distinct keys, at most one credit for the Git signature, exactness without shared keys, never satisfied below threshold 1); the inputs are materialised as real signed metadata, SSH-signed commits and DSSE envelopes, SignatureVerifier.Verify is called, and TLC accepts a result iff some iteration order explains it and it satisfies the rules.",
+            "SSH keys only; the exhaustive (global-rule) verifier is covered with C11.",
+            "DESIGN.md section 4 C05"),
+    "C16": ("Faults.tla, MC_Faults.tla, Trace_Faults.tla",
+            "TLC checks, for every operation x starting state x fault/crash point of the matrix, that the rollback programs satisfy the post-conditions (error reported, valid chain of whole entries, managed refs unchanged or in sync, retry reaches the uninterrupted state); the real operations are run on every call index of their actual storage-call sequence with the k-th call failing and with the operation abandoned after the k-th call, and TLC judges the states re-read through a fresh handle.",
+            "Faults are injected at the gitstore.Storer boundary of the in-memory store; the diverged ReconcileStaging case and post-crash verification verdicts are not yet compared.",
+            "DESIGN.md section 4 C16"),
 }
 
 NOT_YET = {
